@@ -30,6 +30,21 @@ CLAIMED = {
         text="Per coordinate: gamma = clip(F delta/2kT, +-709.782712); the trial probability equals the published Bal-Neyts acceptance function (1 where the denominator vanishes); every exp argument stays below the overflow threshold for all finite forces (so no inf-inf); at loop exit zeta in [-1,1) satisfies P(zeta)>u for its own draw; displacement = zeta*delta*(m_min/m)^p hence bounded by delta*(m_min/m)^p; exactly one set_momenta, one set_positions (constraints on), one force and one energy evaluation; P in [0,1] and along-force displacements favoured (lemmas).",
         note="pointwise abstraction (generic coordinate) with trusted numpy reduction contracts; no constraints; almost-sure termination and 'accepted zeta has density ~P' (rejection-sampling theorem) are NOT proved; A2/A3; cosh-monotonicity lemma instance supplied.",
         design="§7 C13"),
+    "C09": dict(
+        technique="contract-based deductive verification: the real MonteCarlo.yield_moves (generator) and add_move executed symbolically on tables of k<=3 entries with symbolic interval/weight/minimum count/step/cycles; the slot loop analysed for one generic slot (loop contract); np.repeat / Generator.choice as trusted contracts whose arguments are pinned by call-site obligations; native bounded stand-in incl. frequencies and the run loop",
+        text="No due move -> no cycle and no draw; otherwise exactly one move per slot for each of the max_cycles slots, only due moves (step % interval == 0), forced slots drawn once without replacement from all cycles with count = total minimum count of the due moves (<= cycles by the table invariant), each forced name carrying its own minimum count, free slots drawn independently with p_i * sum(w) = w_i over exactly the due moves (so weight 0 is never chosen freely); add_move refuses (ValueError) exactly when the minimum counts would exceed the cycles and otherwise stores the entry unchanged, preserving the invariant.",
+        note="k in {1,2,3} table entries (bounded); numpy/generator contracts trusted; realised frequencies only by the bounded native test; the interval test relative to the run loop (step body executes before the counter advances) is proved in C15 and exercised natively here.",
+        design="§7 C09"),
+    "C15": dict(
+        technique="contract-based deductive verification: Driver.call_observers on k=3 observers with symbolic intervals; Driver.irun cut by a loop contract (prologue / one generic iteration / exit obligations) and driven by the real run, srun and caller-iterated entry points; split-equivalence lemmas in z3 over the per-call summaries; native bounded stand-in over all splittings",
+        text="An observer is called iff (interval>0 and step%interval==0) or (interval<0 and step==-interval), at most once per invocation; irun validates first, writes header then calls observers iff this is the first visit of step 0 (remembered), sets max_steps = start+requested; every iteration calls step once with the old count, executes its body before the counter advances by exactly one, then calls the observers once with the new count; the loop stops exactly at start+requested (no iteration for requested <= 0); run/srun/irun drive the same generator and exhaust each step before resuming; run(a);run(b) has the same observer calls, header and counter as run(a+b), zero-length calls included.",
+        note="A6 (consumer does not mutate between yields); loop induction is the standard loop rule over the proved iteration contract; k=3 observers; file contents beyond the call pattern are C16.",
+        design="§7 C15"),
+    "C17": dict(
+        technique="contract-based deductive verification: the real __add__/__mul__/__rmul__ of BaseMove, CompositeMove, BaseOperation, CompositeOperation executed on operands whose element lists contain symbolic-length segments and symbolic repetition counts; flat-and-typed inductive invariant; native enumeration of expression trees as stand-in",
+        text="For operands of any length: a+b (all four elementary/composite cases, 16+12+12+9 class combinations) contains exactly the operands' elements in order with identity preserved; the result is CompositeDisplacementMove/CompositeExchangeMove exactly when all elements are of that kind, a plain CompositeMove otherwise; a*n repeats in order for n>=1 and raises for n<1 or non-integers; results stay flat; a plain composite calls each element once in order (repeated objects repeatedly) and succeeds iff any does; same for operations. All trees follow since every tree is a composition of these cases and concatenation is associative.",
+        note="operand composites assumed to satisfy the invariant (base cases are hand-built); Python list semantics modelled in pyvc/models/glist.py (trusted); n*composite-move is not claimed (no __rmul__, outside the statement).",
+        design="§7 C17"),
 }
 PENDING_REASON = "check not yet registered in this revision (under construction; see DESIGN.md §0/§7 for the plan)"
 
